@@ -615,6 +615,29 @@ def r5_naming_selection(ctx):
         elif not calls and not delegated and any(isinstance(l, (ast.For, ast.comprehension)) and "self.data" in norm(l.iter) for l in ast.walk(fn)):
             ctx.violated(CF + f, q, "the parameter name is mapped exactly once before it is emitted", detail="the name is emitted without _rename",
                          expected="name = self._rename(name)")
+        elif not calls and not delegated:
+            # a per-parameter helper that no longer maps the name itself: then every caller has to hand it a mapped name.
+            # The callers are looked up in every exporter class (a subclass in another file inherits the helper): one
+            # caller that maps and another that passes the raw name is the violation, at the raw call site.
+            hname = q.split(".")[1]
+            mapped, raw = [], []
+            for mod_ in ctx.repo.all_modules(CF.rstrip("/")):
+                for cn_, c_ in mod_.classes.items():
+                    for mn_, m_ in methods(c_).items():
+                        renamed = {t.id for a in ast.walk(m_) if isinstance(a, ast.Assign) and "self._rename(" in norm(a.value) for t in a.targets if isinstance(t, ast.Name)}
+                        for c in ast.walk(m_):
+                            if isinstance(c, ast.Call) and isinstance(c.func, ast.Attribute) and c.func.attr == hname and norm(c.func.value) in ("self", "super()") and c.args:
+                                a0 = c.args[0]
+                                ok_ = "self._rename(" in norm(a0) or (isinstance(a0, ast.Name) and a0.id in renamed)
+                                (mapped if ok_ else raw).append((mod_.relpath, f"{cn_}.{mn_}", norm(c)[:80]))
+            if mapped and raw:
+                for rel_, q_, txt in raw:
+                    ctx.violated(rel_, q_, "the parameter name is mapped exactly once before it is emitted",
+                                 detail=f"{txt}: {hname} no longer maps the name (its other caller {mapped[0][1]} does) and this caller passes it as it is", expected=f"self.{hname}(self._rename(name), ...)")
+            elif mapped:
+                ctx.holds(CF + f, q, "the parameter name is mapped exactly once before it is emitted", detail=[m[2] for m in mapped])
+            else:
+                ctx.unrecognised(CF + f, q, "the parameter name is mapped exactly once before it is emitted", f"rename calls 0, callers {len(raw)}")
         else:
             ctx.unrecognised(CF + f, q, "the parameter name is mapped exactly once before it is emitted", f"rename calls {len(calls)}, delegated to {delegated[:2]}")
     rn = ctx.fn(CF + "export.py", "ExportConfig._rename")
